@@ -80,6 +80,7 @@ type a25 struct {
 	baseG  *ssa.Global
 	base   int64
 	nPaths int
+	usesGlobal map[string]bool
 }
 
 func globalInitInt(g *ssa.Global) (int64, bool) {
@@ -382,10 +383,21 @@ func ruleA25(r *Run, p *Prog) {
 	walk(a.target, []a25frame{{a.target, nil}}, 0)
 	sort.Slice(chains, func(i, j int) bool { return chainString(chains[i]) < chainString(chains[j]) })
 	dup := map[string]int{}
+	a.usesGlobal = map[string]bool{}
+	var order []string
 	for _, ch := range chains {
 		k := chainString(ch)
+		if dup[k] == 0 {
+			order = append(order, k)
+		}
 		dup[k]++
 		a.checkChain(ch, dup[k])
+	}
+	// the documented global knob must be read at event time on every entry chain (Caller() without
+	// an explicit count follows CallerSkipFrameCount)
+	for _, k := range order {
+		ok := a.usesGlobal[k]
+		r.Ob("A25", k+"/reads-global", "-", ok, true, tern(ok, "some arm of this chain reads CallerSkipFrameCount when the event is finalised", "no arm of this chain reads the global CallerSkipFrameCount at event time: changing the documented knob no longer moves the site reported through this entry point"))
 	}
 	r.Count("a25_chains", len(chains))
 	r.Count("a25_paths", a.nPaths)
@@ -441,6 +453,9 @@ func (a *a25) checkChain(ch []a25frame, arm int) {
 			default:
 				okCoef = false
 			}
+		}
+		if total.syms["G:"+a.baseG.Name()] == 1 {
+			a.usesGlobal[cs] = true
 		}
 		want := int64(n)
 		got := total.c + int64(baseSyms)*a.base
